@@ -702,6 +702,7 @@ func RunE2EOn(env Env, p E2E, start func(cfg rig.Config, seed int64) (*rig.Rig, 
 			select {
 			case err := <-resc:
 				out.add("C05", "C05/e2e/teardown-new-connection", fmt.Sprintf("a call on a connection opened while a request of an already closed connection was still executing did not complete for 5 s, and completed (err %v) as soon as that request's handler was released: connections are not independent (%s)", err, p.Cfg), nil)
+				out.add("C08", "C08/e2e/disconnect-blocks-new-connections", fmt.Sprintf("after a client disconnected with a request still executing, a call on a newly accepted connection was not served for 5 s and completed (err %v) as soon as that request's handler was released: well-formed traffic on other connections is not served (%s)", err, p.Cfg), nil)
 			case <-time.After(10 * time.Second):
 				out.Inconclusive = "a call on a fresh connection did not complete within 15 s (" + p.Cfg.String() + " teardown)"
 			}
